@@ -665,6 +665,151 @@ pub fn drive(log: &mut Log) {
             run_one(log, "bd", seed, case, &Case { p: &p, tb: &tb, texts: &texts, objs: &objs, searches: &searches });
         }
     }
+
+    // (c) guard column of a reused store: a first (eager) search over a text that shares no
+    //     symbol with the pattern wraps the ring buffer, so slot 0 - the sentinel column of the
+    //     next search - holds a real column with D[r] = r in every block. Then searches whose
+    //     hit starts at text position 0 with more than one block of leading insertions (the
+    //     text is a suffix of the pattern, k >= the number of missing symbols), eager and lazy,
+    //     alternating with the filler search. Patterns of 2-3 blocks, u8 and u16 blocks.
+    let gplan: Vec<(usize, usize, usize)> = vec![
+        (16, 8, 12), (16, 8, 16), (32, 8, 17), (32, 8, 20), (32, 8, 23), (32, 8, 24),
+        (32, 16, 20), (32, 16, 32), (64, 16, 33), (64, 16, 40), (64, 16, 47),
+    ];
+    let nvar = log.opts.n(2, 8);
+    for &(ws, wl, m) in &gplan {
+        for variant in 0..nvar {
+            case += 1;
+            if !log.mine(case) {
+                continue;
+            }
+            let mut rng = Rng::new(seed, 42, case);
+            let alpha: Vec<u8> = if variant % 2 == 0 { (b'0'..=b'z').collect() } else { b"ACGT".to_vec() };
+            let p: Vec<u8> = if variant % 2 == 0 {
+                (0..m).map(|i| alpha[i % alpha.len()]).collect() // all symbols distinct within a window
+            } else {
+                rng.seq(m, &alpha)
+            };
+            // h symbols of the pattern are missing at the front of the text: the leading insertions
+            // reach at least two rows into the second block
+            let h = (wl + 2 + rng.below((m - wl - 2) as u64) as usize).min(m - 1);
+            // long enough to wrap the ring of the filler search (m + min(k,m) + 2 slots)
+            let filler: Vec<u8> = vec![if variant % 4 < 2 { b'!' } else { b'#' }; 2 * m + 8];
+            let t2 = p[h..].to_vec();
+            let mut t3 = p[h..].to_vec();
+            t3.extend(rng.seq(5, &alpha));
+            let e4 = 1 + rng.below(2) as usize;
+            let t4 = mutate(&mut rng, &p[h..], e4, &alpha);
+            let texts = vec![filler, t2, t3, t4];
+            let hi = h as i64;
+            let mi = m as i64;
+            let fk = mi - 1; // the filler search finds nothing, but keeps (nearly) all blocks of its columns active
+            let searches = vec![
+                Search { ti: 1, k: fk, lazy: false, max_hits: 99, style: 1, light: true },
+                Search { ti: 2, k: hi, lazy: false, max_hits: 99, style: 2, light: false },
+                Search { ti: 1, k: fk, lazy: false, max_hits: 99, style: 1, light: true },
+                Search { ti: 2, k: hi, lazy: true, max_hits: 99, style: rng.below(4), light: false },
+                Search { ti: 1, k: fk, lazy: false, max_hits: 99, style: 0, light: true },
+                Search { ti: 3, k: hi + 1, lazy: false, max_hits: 99, style: 3, light: false },
+                Search { ti: 1, k: fk, lazy: false, max_hits: 99, style: 1, light: true },
+                Search { ti: 4, k: hi + 3, lazy: true, max_hits: 99, style: rng.below(4), light: false },
+                Search { ti: 1, k: fk, lazy: false, max_hits: 99, style: 1, light: true },
+                Search { ti: 2, k: mi, lazy: false, max_hits: 4, style: 3, light: false },
+            ];
+            let objs = [Obj { long_impl: false, w: ws }, Obj { long_impl: true, w: wl }];
+            log.oblige("reuse_guard_column_leading_insertions_over_one_block");
+            run_one(log, "gd", seed, case, &Case { p: &p, tb: &none, texts: &texts, objs: &objs, searches: &searches });
+        }
+    }
+
+    // (d0) a unary run that fills the leading blocks exactly, then a tail over other symbols;
+    //      the text repeats run and tail exactly (k = 0) or with one substituted symbol (cf. class (d) of the
+    //      `myers` driver): blocks behind the seam are dropped and re-activated at the threshold
+    let nrun = log.opts.n(24, 200);
+    for i in 0..nrun {
+        case += 1;
+        if !log.mine(case) {
+            continue;
+        }
+        let mut rng = Rng::new(seed, 44, case);
+        let w = if i % 4 == 3 { 16 } else { 8 };
+        let blocks = 2 + rng.below(2) as usize;
+        let m = w * (blocks - 1) + 1 + rng.below(w as u64) as usize;
+        let b = 1 + rng.below(blocks as u64 - 1) as usize;
+        let mut p: Vec<u8> = vec![b'a'; w * b];
+        while p.len() < m {
+            p.push(*rng.pick(b"bc"));
+        }
+        let mut texts: Vec<Vec<u8>> = vec![];
+        for ti in 0..3 {
+            let pre = rng.below(10) as usize;
+            let mut t: Vec<u8> = rng.seq(pre, b"bc");
+            // text 1: the run is 1-3 symbols longer than in the pattern and nothing is substituted:
+            // the exact occurrence (k = 0) ends the run at two consecutive columns with distance 0
+            let extra = if ti == 0 { 1 + rng.below(3) as usize } else if rng.below(3) == 0 { rng.below(4) as usize } else { 0 };
+            t.extend(vec![b'a'; w * b + extra]);
+            t.extend_from_slice(&p[w * b..]);
+            if ti > 0 {
+                let j = rng.below(t.len() as u64) as usize;
+                t[j] = *rng.pick(b"abc");
+            }
+            let tail = rng.below(6) as usize;
+            t.extend(rng.seq(tail, b"bc"));
+            texts.push(t);
+        }
+        let mut searches = vec![];
+        searches.push(Search { ti: 1, k: 0, lazy: false, max_hits: 99, style: rng.below(4), light: false });
+        searches.push(Search { ti: 1, k: 0, lazy: true, max_hits: 99, style: rng.below(4), light: false });
+        for ti in 1..=3usize {
+            searches.push(Search { ti, k: 1, lazy: ti % 2 == 0, max_hits: 99, style: rng.below(4), light: false });
+            searches.push(Search { ti, k: 2, lazy: ti % 2 == 1, max_hits: 99, style: rng.below(4), light: true });
+        }
+        let ws = if m <= 32 { 32 } else { 64 };
+        let objs = [Obj { long_impl: false, w: ws }, Obj { long_impl: true, w }];
+        log.oblige("unary_run_to_block_boundary");
+        run_one(log, "ur", seed, case, &Case { p: &p, tb: &none, texts: &texts, objs: &objs, searches: &searches });
+    }
+
+    // (d) the edit budget is used up exactly at a block seam (am_common::seam_case): a hit of
+    //     distance exactly k with all k edits in the upper blocks, single-word and block-based
+    //     object side by side, eager and lazy
+    let reps = log.opts.n(6, 12);
+    for &w in &[8usize, 16] {
+        for blocks in 2..=3usize {
+            for b in 1..blocks {
+                for k in 1..=3usize {
+                    for r in 1..=3usize {
+                        for rep in 0..reps {
+                            case += 1;
+                            if !log.mine(case) {
+                                continue;
+                            }
+                            if w == 16 && (rep > 0 || r != 2) {
+                                continue;
+                            }
+                            if !(blocks == 3 && b == 1) && rep >= 2 && !log.opts.thorough() {
+                                continue; // most repetitions go to the first seam of three-block patterns
+                            }
+                            let mut rng = Rng::new(seed, 43, case);
+                            let alpha: &[u8] = if (rep + k as u64) % 2 == 0 { b"abcd" } else { b"abc" };
+                            let (p, t) = seam_case(&mut rng, w, blocks, b, k, r, rep + r as u64, alpha);
+                            let texts = vec![t];
+                            let ki = k as i64;
+                            let searches = vec![
+                                Search { ti: 1, k: ki, lazy: false, max_hits: 99, style: rng.below(4), light: false },
+                                Search { ti: 1, k: ki, lazy: true, max_hits: 99, style: rng.below(4), light: false },
+                                Search { ti: 1, k: ki + 1, lazy: false, max_hits: 99, style: rng.below(4), light: true },
+                            ];
+                            let ws = if p.len() <= 32 { 32 } else { 64 };
+                            let objs = [Obj { long_impl: false, w: ws }, Obj { long_impl: true, w }];
+                            log.oblige("budget_exhausted_at_seam");
+                            run_one(log, "sb", seed, case, &Case { p: &p, tb: &none, texts: &texts, objs: &objs, searches: &searches });
+                        }
+                    }
+                }
+            }
+        }
+    }
 }
 
 fn main() {
